@@ -214,8 +214,149 @@ func skeletons(repo string) []skel {
 		}
 	}
 	out = append(out, runGuards(repo)...)
+	out = append(out, pkgState(repo)...)
 	sort.Slice(out, func(i, j int) bool { return out[i].name < out[j].name })
 	return out
+}
+
+// Package-level mutable state of src/vm (hardening class 3c) and fork-flag reads of the frame code (class 5):
+//   pkgstate.writes : "<func>:<var>" for every assignment / ++ / -- whose target is rooted at a package-level variable;
+//   pkgstate.pools  : "<func>:<var>.<Get|Put>" for every use of a package-level pool;
+//   flags.<func>    : the common.IsProposalNNN() calls / LocalChainConfig.ProposalNNNBlock reads of evm.go's create,
+//                     NewEVMInterpreter and RunPrecompiledContract, in source order.
+func pkgState(repo string) []skel {
+	fset := token.NewFileSet()
+	dir := filepath.Join(repo, "src", "vm")
+	files, _ := filepath.Glob(filepath.Join(dir, "*.go"))
+	sort.Strings(files)
+	var parsed []*ast.File
+	pkgVars := map[string]bool{}
+	for _, f := range files {
+		base := filepath.Base(f)
+		if strings.HasSuffix(base, "_test.go") || strings.HasPrefix(base, "verif_") || base == "vm_test_helper.go" {
+			continue
+		}
+		file, err := parser.ParseFile(fset, f, nil, 0)
+		if err != nil {
+			panic(err)
+		}
+		parsed = append(parsed, file)
+		for _, d := range file.Decls {
+			if gd, ok := d.(*ast.GenDecl); ok && gd.Tok == token.VAR {
+				for _, sp := range gd.Specs {
+					for _, n := range sp.(*ast.ValueSpec).Names {
+						pkgVars[n.Name] = true
+					}
+				}
+			}
+		}
+	}
+	root := func(e ast.Expr) *ast.Ident {
+		for {
+			switch v := e.(type) {
+			case *ast.Ident:
+				return v
+			case *ast.SelectorExpr:
+				e = v.X
+			case *ast.IndexExpr:
+				e = v.X
+			case *ast.StarExpr:
+				e = v.X
+			case *ast.ParenExpr:
+				e = v.X
+			default:
+				return nil
+			}
+		}
+	}
+	isPkg := func(id *ast.Ident) bool {
+		if id == nil || !pkgVars[id.Name] {
+			return false
+		}
+		if id.Obj == nil {
+			return true // declared in another file of the package
+		}
+		if vs, ok := id.Obj.Decl.(*ast.ValueSpec); ok {
+			_ = vs
+			return id.Obj.Kind == ast.Var && id.Obj.Pos() != token.NoPos && isTopLevel(parsed, id.Obj)
+		}
+		return false
+	}
+	writes := map[string]bool{}
+	pools := map[string]bool{}
+	flags := map[string][]string{}
+	for _, file := range parsed {
+		for _, d := range file.Decls {
+			fd, ok := d.(*ast.FuncDecl)
+			if !ok || fd.Body == nil {
+				continue
+			}
+			name := fd.Name.Name
+			ast.Inspect(fd.Body, func(n ast.Node) bool {
+				switch v := n.(type) {
+				case *ast.AssignStmt:
+					if v.Tok == token.DEFINE {
+						return true
+					}
+					for _, l := range v.Lhs {
+						if id := root(l); isPkg(id) {
+							writes[name+":"+id.Name] = true
+						}
+					}
+				case *ast.IncDecStmt:
+					if id := root(v.X); isPkg(id) {
+						writes[name+":"+id.Name] = true
+					}
+				case *ast.CallExpr:
+					if se, ok := v.Fun.(*ast.SelectorExpr); ok {
+						if id, ok := se.X.(*ast.Ident); ok && isPkg(id) && (se.Sel.Name == "Get" || se.Sel.Name == "Put") {
+							pools[name+":"+id.Name+"."+se.Sel.Name] = true
+						}
+						if name == "create" || name == "NewEVMInterpreter" || name == "RunPrecompiledContract" || name == "Call" {
+							if fn := exprName(v.Fun); strings.HasPrefix(fn, "common.IsProposal") || fn == "common.IsSub" {
+								flags[name] = append(flags[name], fn)
+							}
+						}
+					}
+				case *ast.SelectorExpr:
+					if name == "NewEVMInterpreter" && strings.HasPrefix(v.Sel.Name, "Proposal") && strings.HasSuffix(v.Sel.Name, "Block") {
+						flags[name] = append(flags[name], v.Sel.Name)
+					}
+				}
+				return true
+			})
+		}
+	}
+	keys := func(m map[string]bool) []string {
+		var ks []string
+		for k := range m {
+			ks = append(ks, k)
+		}
+		sort.Strings(ks)
+		return ks
+	}
+	out := []skel{{name: "pkgstate.pools", items: keys(pools)}, {name: "pkgstate.writes", items: keys(writes)}}
+	for _, fn := range []string{"Call", "NewEVMInterpreter", "RunPrecompiledContract", "create"} {
+		out = append(out, skel{name: "flags." + fn, items: flags[fn]})
+	}
+	return out
+}
+
+func isTopLevel(files []*ast.File, obj *ast.Object) bool {
+	for _, f := range files {
+		for _, d := range f.Decls {
+			if gd, ok := d.(*ast.GenDecl); ok && gd.Tok == token.VAR {
+				for _, sp := range gd.Specs {
+					for _, n := range sp.(*ast.ValueSpec).Names {
+						if n.Obj == obj {
+							return true
+						}
+					}
+				}
+			}
+		}
+	}
+	return false
 }
 
 // The read-only discipline of EVMInterpreter.Run (interpreter.go), with the receiver and the
